@@ -156,6 +156,11 @@ func (fx *FX) execInstr(fr *frame, st *State, ins ssa.Instruction) bool {
 		fr.vals[t] = Val{T: fx.define(t.Name(), fx.binop(fr, st, t.Op, x, y, t.X.Type(), t.Pos())), Typ: t.Type()}
 		return true
 	case *ssa.Convert:
+		if sn, ok := fr.snap[t.X]; ok && w.SortOf(t.Type()) == SStr {
+			x := fr.val(t.X).T
+			fr.vals[t] = Val{T: fx.define(t.Name(), app("mk_str", SStr, sn[0], sn[1], sLen(x))), Typ: t.Type()}
+			return true
+		}
 		fr.vals[t] = Val{T: fx.define(t.Name(), fx.convert(fr, st, fr.val(t.X), t.X.Type(), t.Type())), Typ: t.Type()}
 		return true
 	case *ssa.ChangeType:
@@ -920,11 +925,11 @@ func (fx *FX) execSlice(fr *frame, st *State, t *ssa.Slice) bool {
 			}
 			cur := fx.load(fr, st, a, t.Pos())
 			reg = fx.newRef(st, "snap")
-			es := w.SortOf(arr.Elem())
-			key := "M:" + sortID(es)
-			mem := fx.comp(st, key, SArr(SInt, SArr(SBV64, es)))
-			fx.setComp(st, key, Store(mem, reg, cur))
-			logComp(key)
+			if fr.snap == nil {
+				fr.snap = map[ssa.Value][2]Term{}
+			}
+			fr.snap[t] = [2]Term{fx.define("snap", cur), lo}
+			_ = w
 		}
 		fr.vals[t] = Val{T: fx.define(t.Name(), mkSlice(reg, lo, bvbin("bvsub", hi, lo), bvbin("bvsub", n, lo))), Typ: t.Type()}
 	default:
